@@ -53,6 +53,7 @@ func (c *FnCtx) binop(st *State, op token.Token, xv, yv SymVal, xt, yt types.Typ
 	y := yv.(*Term)
 	srt := x.sort
 	c.curPos = pos
+	c.curBinOp = in
 	switch op {
 	case token.EQL, token.NEQ:
 		var eq *Term
@@ -183,7 +184,59 @@ func (c *FnCtx) wrapInt(st *State, v *Term, t types.Type) *Term {
 	if lo == "" {
 		return v
 	}
+	if c.curBinOp != nil && isCounterStep(c.curBinOp) {
+		c.trusted["a local counter changed only by constant steps cannot wrap around within any feasible running time (2^63 steps)"] = true
+		return v
+	}
 	c.addObl(st, "overflow", fmt.Sprintf("#%d", c.kindOrd["overflow"]), ts.And(ts.Le(ts.BigInt(lo), v), ts.Le(v, ts.BigInt(hi))), c.curPos, "integer arithmetic may wrap around")
 	c.trusted["lengths of strings, slices and maps are at most 2^56 (address-space bound)"] = true
 	return v
+}
+
+// isCounterStep: x +/- const where x is a load of a local variable that is only ever assigned constants or
+// itself plus/minus a constant (loop counters, sequence numbers).
+func isCounterStep(b *ssa.BinOp) bool {
+	if b.Op != token.ADD && b.Op != token.SUB {
+		return false
+	}
+	var ld *ssa.UnOp
+	if u, ok := b.X.(*ssa.UnOp); ok && u.Op == token.MUL {
+		if _, isC := b.Y.(*ssa.Const); isC {
+			ld = u
+		}
+	}
+	if ld == nil {
+		return false
+	}
+	a, ok := ld.X.(*ssa.Alloc)
+	if !ok {
+		return false
+	}
+	refs := a.Referrers()
+	if refs == nil {
+		return false
+	}
+	for _, r := range *refs {
+		switch x := r.(type) {
+		case *ssa.Store:
+			if x.Addr != a {
+				return false // address stored somewhere
+			}
+			switch v := x.Val.(type) {
+			case *ssa.Const:
+			case *ssa.BinOp:
+				u, ok := v.X.(*ssa.UnOp)
+				_, isC := v.Y.(*ssa.Const)
+				if !(ok && isC && u.Op == token.MUL && u.X == a && (v.Op == token.ADD || v.Op == token.SUB)) {
+					return false
+				}
+			default:
+				return false
+			}
+		case *ssa.UnOp, *ssa.DebugRef:
+		default:
+			return false // escapes
+		}
+	}
+	return true
 }
